@@ -12,6 +12,6 @@ CONSTANTS
 VIEW View
 CONSTRAINT Bound
 ACTION_CONSTRAINT ExportTrans
-INVARIANTS NoHang ProbeTerminates FreeSound LoadBound LenExact KeysUnique Reachable StructOK ExportState
+INVARIANTS AbsOK NoHang ProbeTerminates FreeSound LoadBound LenExact KeysUnique Reachable StructOK ExportState
 PROPERTY Refines
 CHECK_DEADLOCK FALSE
